@@ -11,6 +11,7 @@ import (
 	"math"
 	"sort"
 	"strconv"
+	"strings"
 
 	"github.com/tobgu/qframe"
 	"github.com/tobgu/qframe/config/csv"
@@ -1050,6 +1051,139 @@ func familyRound(s *hlib.Suite, r *hlib.Rng, n int, thorough bool) {
 	}
 }
 
+// ---------------------------------------------------------------- long rows through the public entry point
+
+// familyLong reads, with qframe.ReadCSV (i.e. through fastcsv.NewReader and its 1 KiB initial buffer), documents
+// whose rows cross the buffer size and its doublings: one or two long cells (1000..20000 bytes, quoted with
+// doubled quotes and line breaks inside half of the time) followed by many short rows.  Every document is read
+// under several fragmentations (whole / 4096 / 8192 / prime sized / random large chunks) and both EOF styles; all
+// results must be the rendered rows.  These cases are decided in Go only (the documents are too long for the
+// Coq evaluation of the buffer model); a disagreement is a concrete failing input of C12.
+func familyLong(s *hlib.Suite, r *hlib.Rng, n int) {
+	for it := 0; it < n; it++ {
+		ncols := 1 + r.Intn(3)
+		nshort := r.Intn(400)
+		names := make([][]byte, ncols)
+		for j := range names {
+			names[j] = []byte{byte('A' + j)}
+		}
+		rows := [][][]byte{names}
+		longAt := r.Intn(3)
+		mk := func(k int) []byte {
+			b := make([]byte, k)
+			for i := range b {
+				const alphabet = "abcdefghij  \"\"\n,xyz0123456789"
+				b[i] = alphabet[r.Intn(len(alphabet))]
+			}
+			return b
+		}
+		nrows := 1 + nshort
+		for i := 0; i < nrows; i++ {
+			row := make([][]byte, ncols)
+			for j := range row {
+				row[j] = []byte(fmt.Sprintf("v%d_%d", i, j))
+			}
+			if (i == 0 && longAt == 0) || (i == nrows/2 && longAt == 1) || (i == nrows-1 && longAt == 2) {
+				row[r.Intn(ncols)] = mk([]int{1000, 1023, 1024, 1025, 2047, 2049, 4095, 4097, 5000, 8200, 10000, 20000}[r.Intn(12)])
+			}
+			rows = append(rows, row)
+		}
+		st := genStyle(r, ',', rows)
+		st.final = r.Bool()
+		doc := renderDoc(',', rows, st)
+		want := fmt.Sprint(len(rows) - 1)
+		types := map[string]string{}
+		for _, nm := range names {
+			types[string(nm)] = "string"
+		}
+		var first string
+		id := s.NextID()
+		for run := 0; run < 6; run++ {
+			var chunks [][]byte
+			how := ""
+			switch run {
+			case 0:
+				chunks, how = [][]byte{doc}, "whole"
+			case 1:
+				how = "4096"
+				for i := 0; i < len(doc); i += 4096 {
+					e := i + 4096
+					if e > len(doc) {
+						e = len(doc)
+					}
+					chunks = append(chunks, doc[i:e])
+				}
+			case 2:
+				how = "8192"
+				for i := 0; i < len(doc); i += 8192 {
+					e := i + 8192
+					if e > len(doc) {
+						e = len(doc)
+					}
+					chunks = append(chunks, doc[i:e])
+				}
+			case 3:
+				chunks, how = chunkDoc(r, doc, 4), "primes"
+			default:
+				chunks, how = chunkDoc(r, doc, 6), "random"
+			}
+			term := run % 2
+			if run >= 4 {
+				term = r.Intn(2)
+			}
+			desc := map[string]interface{}{"family": "long", "doc_len": len(doc), "rows": len(rows) - 1, "cols": ncols, "chunking": how, "eof_with_last_data": term == 1,
+				"doc_prefix": q(doc[:minInt(len(doc), 80)]), "props": []string{"C12"}}
+			var qf qframe.QFrame
+			if p, v := hlib.Recover(func() {
+				qf = qframe.ReadCSV(&schedReader{chunks: chunks, term: term}, csv.Types(types))
+			}); p {
+				s.Fail(id, fmt.Sprintf("ReadCSV panicked: %v", v), desc, "csv-read-panic")
+				continue
+			}
+			s.Count("long-row-reads")
+			if qf.Err != nil {
+				s.Fail(id, fmt.Sprintf("ReadCSV of a well-formed document failed: %v", qf.Err), desc, "csv-long")
+				continue
+			}
+			var b strings.Builder
+			fmt.Fprintf(&b, "%d %v\n", qf.Len(), qf.ColumnNames())
+			for _, nm := range qf.ColumnNames() {
+				v, err := qf.StringView(nm)
+				if err != nil {
+					fmt.Fprintf(&b, "view error %v", err)
+					continue
+				}
+				for i := 0; i < v.Len(); i++ {
+					if x := v.ItemAt(i); x == nil {
+						b.WriteString("nil|")
+					} else {
+						b.WriteString(strconv.Quote(*x) + "|")
+					}
+				}
+				b.WriteString("\n")
+			}
+			got := b.String()
+			if run == 0 {
+				first = got
+				// the rows the document was rendered from
+				var w strings.Builder
+				fmt.Fprintf(&w, "%s %v\n", want, qf.ColumnNames())
+				for j := range names {
+					for i := 1; i < len(rows); i++ {
+						w.WriteString(strconv.Quote(string(rows[i][j])) + "|")
+					}
+					w.WriteString("\n")
+				}
+				if w.String() != got {
+					s.Fail(id, "ReadCSV of a well-formed document with a long cell does not return the rows it was rendered from", desc, "csv-long")
+				}
+			} else if got != first {
+				s.Fail(id, "fragmentation dependence: two fragmentations of one well-formed document give different frames", desc, "csv-long")
+			}
+		}
+	}
+}
+
 func main() {
 	cfg := hlib.ParseFlags()
 	s := hlib.NewSuite(cfg, "csv")
@@ -1065,5 +1199,13 @@ func main() {
 	familyScan(s, r.Fork(), n/5, thorough)
 	familyRead(s, r.Fork(), n*4/15, thorough)
 	familyRound(s, r.Fork(), n/5, thorough)
+	familyLong(s, r.Fork(), n/50)
 	s.Finish()
+}
+
+func minInt(a, b int) int {
+	if a < b {
+		return a
+	}
+	return b
 }
